@@ -92,6 +92,12 @@ struct yyguts_t;
 static int yyread(char *buf, size_t max_size, struct yyguts_t *yyscanner);
 #endif
 static void yypanic(const char *msg, struct yyguts_t *yyscanner) __attribute__((noreturn));
+#ifdef VF_LEDGER
+/* %option noyyalloc noyyrealloc noyyfree: the c99 skeleton declares nothing, the user does */
+void *yyalloc(size_t size, struct yyguts_t *yyscanner);
+void *yyrealloc(void *ptr, size_t size, struct yyguts_t *yyscanner);
+void yyfree(void *ptr, struct yyguts_t *yyscanner);
+#endif
 #endif
 
 #ifdef VF_DEFAULT_INPUT
